@@ -1,5 +1,5 @@
 """C11 - token-bucket output conforms to (rate, bucket) and delays nothing needlessly"""
-from . import netdev as N, resources as R, elements
+from . import netdev as N, resources as R, elements, deps
 
 def check(ctx):
     N.run_tables(ctx, 'C11', [('TokenBucket', '__init__'), ('TokenBucket', 'put'), ('TokenBucket', 'run'),
@@ -10,6 +10,7 @@ def check(ctx):
     elements.state_asserts(ctx, 'C11', only=('TokenBucket', 'TwoRateTokenBucket'))
     elements.spawn_sites(ctx, 'C11', only=('TokenBucket', 'TwoRateTokenBucket'))
     elements.class_method_sets(ctx, 'C11', only=('TokenBucket', 'TwoRateTokenBucket'))
+    deps.element_layers(ctx, 'C11')
     return ('Static: TokenBucket.run (refill min(B, level + rate*dt/8), wait exactly (size-level)*8/rate when short, debit '
             'otherwise, update_time = debit instant, peak spacing before the forward) and TwoRateTokenBucket.run (both '
             'refills, three-way colour decision, green implies the committed bucket was debited under size <= level) '
